@@ -449,11 +449,18 @@ for _p in ("C14", "C17"):
 
 # The regenerated serialisers (tools/encgen -> lean/Bmc/Gen/Enc.lean) and their equality with the hand encoder models
 # (lean/Bmc/Proofs/GenEnc.lean) support C06 and C08 alike.
-GENENC_LAYERS = 17
+GENENC_LAYERS = 18
 _GENENC_CLAIM = (" REGENERATED MODELS: the SerializeTo methods of %d layers are RE-TRANSLATED from the Go source on every run (tools/encgen -> Gen/Enc.lean) over a "
                  "serialize buffer whose PrependBytes / AppendBytes hand back bytes of INDETERMINATE content, and proved equal to the encoder models the theorems are "
                  "about for every layer value, every inner payload and every stale content (Proofs/GenEnc.lean: T_enc_eq) - a serialiser that leaves a byte unwritten "
-                 "on one path, swaps two fields or changes a mask breaks a proof obligation at build time." % GENENC_LAYERS)
+                 "on one path, swaps two fields or changes a mask breaks a proof obligation at build time. The translator gives up on NO SerializeTo method "
+                 "(Proofs/GenEnc/TranslatedOk.lean: gaveUp_empty): ipmi.AES128CBC too is regenerated, its external calls as PARAMETERS - a.cipher.BlockSize() = 16 (the "
+                 "unexported field is only ever set from aes.NewCipher), rand.Read(iv) = the bytes drawn (or the error, returned at once), "
+                 "cipher.NewCBCEncrypter(a.cipher, iv).CryptBlocks(toEncrypt, toEncrypt) = a function of the IV and of what the slice b.Bytes()[16:] holds AT THE TIME OF THE "
+                 "CALL, applied in place - and proved equal to Wire.AESLayer.encode for every key, IV draw, inner payload and stale content, CBC encryption identified "
+                 "with the model's cbcEnc over a lawful block cipher as on the decoding side (Proofs/GenEnc/AES128CBC.lean: AES128CBC_enc_eq, _enc_param for every "
+                 "length-preserving cipher function, _enc_randErr). A local holding a slice of the buffer is usable only until the next PrependBytes / AppendBytes "
+                 "(which may move the contents): with the slice taken before the PrependBytes for the IV (defect F13) the translator gives up and these obligations break." % GENENC_LAYERS)
 # The wrappers around SendCommand as the source has them now (factgen -> Gen/Facts.lean: apiWrappers) — Proofs/ApiWrappers.lean
 for _p in ("C06", "C07", "C17"):
     PROPS[_p]["proofs"] = PROPS[_p]["proofs"] + ["Bmc.Proofs.ApiWrappers"]
@@ -462,14 +469,17 @@ for _p in ("C06", "C07", "C17"):
                            "re-extracted from the source on every run and compared with the expected table (Proofs/ApiWrappers.lean).")
 for _p in ("C06", "C08"):
     PROPS[_p]["claim"] += _GENENC_CLAIM
-    PROPS[_p]["proofs"] = PROPS[_p]["proofs"] + ["Bmc.Proofs.GenEnc.TranslatedOk", "Bmc.Proofs.GenEnc.GetSensorReadingReq", "Bmc.Proofs.GenEnc.GetDCMICapabilitiesInfoReq", "Bmc.Proofs.GenEnc.GetDCMISensorInfoReq", "Bmc.Proofs.GenEnc.ChassisControlReq", "Bmc.Proofs.GenEnc.CloseSessionReq", "Bmc.Proofs.GenEnc.GetChannelAuthenticationCapabilitiesReq", "Bmc.Proofs.GenEnc.GetChannelCipherSuitesReq", "Bmc.Proofs.GenEnc.GetSDRReq", "Bmc.Proofs.GenEnc.GetSessionInfoReq", "Bmc.Proofs.GenEnc.SetSessionPrivilegeLevelReq", "Bmc.Proofs.GenEnc.OpenSessionReq", "Bmc.Proofs.GenEnc.RAKPMessage3", "Bmc.Proofs.GenEnc.RAKPMessage1", "Bmc.Proofs.GenEnc.V1Session", "Bmc.Proofs.GenEnc.Message", "Bmc.Proofs.GenEnc.GetPowerReadingReq", "Bmc.Proofs.GenEnc.V2Session"]
-    PROPS[_p]["modelled"] = PROPS[_p]["modelled"] + ["serialisers encgen gives up on (listed in Gen/Enc.lean: gaveUp, with reasons) stay hand models tied by correspondence only"]
+    PROPS[_p]["proofs"] = PROPS[_p]["proofs"] + ["Bmc.Proofs.GenEnc.TranslatedOk", "Bmc.Proofs.GenEnc.GetSensorReadingReq", "Bmc.Proofs.GenEnc.GetDCMICapabilitiesInfoReq", "Bmc.Proofs.GenEnc.GetDCMISensorInfoReq", "Bmc.Proofs.GenEnc.ChassisControlReq", "Bmc.Proofs.GenEnc.CloseSessionReq", "Bmc.Proofs.GenEnc.GetChannelAuthenticationCapabilitiesReq", "Bmc.Proofs.GenEnc.GetChannelCipherSuitesReq", "Bmc.Proofs.GenEnc.GetSDRReq", "Bmc.Proofs.GenEnc.GetSessionInfoReq", "Bmc.Proofs.GenEnc.SetSessionPrivilegeLevelReq", "Bmc.Proofs.GenEnc.OpenSessionReq", "Bmc.Proofs.GenEnc.RAKPMessage3", "Bmc.Proofs.GenEnc.RAKPMessage1", "Bmc.Proofs.GenEnc.V1Session", "Bmc.Proofs.GenEnc.Message", "Bmc.Proofs.GenEnc.GetPowerReadingReq", "Bmc.Proofs.GenEnc.V2Session", "Bmc.Proofs.GenEnc.AES128CBC"]
+    PROPS[_p]["modelled"] = PROPS[_p]["modelled"] + ["serialisers encgen gives up on (listed in Gen/Enc.lean: gaveUp, with reasons; none at delivery - gaveUp_empty) stay hand models tied by correspondence only",
+                                                     "regenerated AES128CBC.SerializeTo: crypto/rand.Read and crypto/cipher's CBC encrypter are PARAMETERS (the bytes drawn / a function of IV and plaintext, in place); a zero-value AES128CBC (nil cipher) is outside the translation; a slice of the serialize buffer aliases it only until the next PrependBytes / AppendBytes"]
 
 # C04's acceptance path runs through the session-wrapper, AES and message decoders; C03's transmissions through the
 # corresponding serialisers: their regenerated translations are obligations of these properties too.
 PROPS["C04"]["proofs"] = PROPS["C04"]["proofs"] + ["Bmc.Proofs.GenDec.V2Session", "Bmc.Proofs.GenDec.AES128CBC", "Bmc.Proofs.GenDec.Message"]
 PROPS["C04"]["claim"] += (" The wrapper, AES and message DECODERS the acceptance test runs through are re-translated from the source on every run and proved "
                           "equal to the models these theorems are about (Proofs/GenDec/{V2Session,AES128CBC,Message}).")
-PROPS["C03"]["proofs"] = PROPS["C03"]["proofs"] + ["Bmc.Proofs.GenEnc.V2Session", "Bmc.Proofs.GenEnc.Message"]
-PROPS["C03"]["claim"] += (" The wrapper and message SERIALISERS are re-translated from the source on every run and proved equal to the encoder models "
-                          "(Proofs/GenEnc/{V2Session,Message}); the AES serialiser is a hand model tied by correspondence.")
+PROPS["C03"]["proofs"] = PROPS["C03"]["proofs"] + ["Bmc.Proofs.GenEnc.V2Session", "Bmc.Proofs.GenEnc.Message", "Bmc.Proofs.GenEnc.AES128CBC"]
+PROPS["C03"]["claim"] += (" The wrapper, AES and message SERIALISERS are re-translated from the source on every run and proved equal to the encoder models "
+                          "(Proofs/GenEnc/{V2Session,Message,AES128CBC}); in the AES serialiser rand.Read (the IV draw) and CBC encryption are parameters of the "
+                          "regenerated definition, the latter applied to what b.Bytes()[16:] holds at the time of the call - a slice taken before the PrependBytes "
+                          "for the IV (defect F13) makes the translator give up.")
